@@ -612,6 +612,11 @@ class DestHandler:
         self._handle_eof_without_previous_metadata(eof_pdu)
 
     def _handle_eof_without_previous_metadata(self, eof_pdu: EofPdu) -> None:
+        if eof_pdu.condition_code != ConditionCode.NO_ERROR:
+            # EOF (cancel) PDU: the sender gave up, nothing is requested again. Perform the Cancel
+            # Response Procedures like for a transaction of which the metadata is known.
+            self._handle_eof_pdu(eof_pdu)
+            return
         self._params.fp.progress = eof_pdu.file_size
         self._params.fp.file_size_eof = eof_pdu.file_size
         self._params.fp.crc32 = eof_pdu.file_checksum
